@@ -42,6 +42,11 @@ let handle (toks : string list) : (string * string * string) option =
            | Ok ((Some v, _), t) -> "V " ^ hex_of v ^ " where=app alias=no ticks=" ^ string_of_int (int_of_nat t)
            | Ok ((None, _), t) -> "NULLPTR ticks=" ^ string_of_int (int_of_nat t)
            | Abort -> "ABORT" | Fault -> "FAULT" | Diverge -> "DIVERGE")
+        | "uspc" ->
+          let total = Z.pow (z_of_int 2) (z_of_int 32) in
+          (match vrun sc (usp_cell total (z_of_int a) (ni off)) m0 O with
+           | Ok ((v, _), t) -> "A " ^ string_of_z v ^ " ticks=" ^ string_of_int (int_of_nat t)
+           | Abort -> "ABORT" | Fault -> "FAULT" | Diverge -> "DIVERGE")
         | "cvba" | "cva" ->
           (* the window is the last w bytes of a 2^32-byte sandbox: a representation r designates window offset r - (2^32 - w) *)
           let total = Z.pow (z_of_int 2) (z_of_int 32) in
